@@ -5,6 +5,10 @@ package vgirpc
 import (
 	"context"
 	"fmt"
+	"hash/adler32"
+	"hash/crc32"
+	"hash/fnv"
+	"strconv"
 	"strings"
 	"testing"
 
@@ -141,6 +145,67 @@ func vfC14Summary(body []byte) string {
 		}
 	}
 	return fmt.Sprintf("streams=%d[%s]", len(streams), strings.Join(parts, ","))
+}
+
+// vfC14Collide returns the first two names prefix+i, prefix+j (i<j, sequential
+// search, deterministic) with the same 32-bit digest.
+func vfC14Collide(h func(string) uint32, prefix string) (string, string) {
+	seen := map[uint32]string{}
+	for i := 0; i < 1500000; i++ {
+		// splitmix64 of the counter, base 36: equal-length names that differ in
+		// many positions (CRCs never collide on names differing in <= 4 bytes)
+		z := uint64(i+1) * 0x9E3779B97F4A7C15
+		z = (z ^ (z >> 30)) * 0xBF58476D1CE4E5B9
+		z = (z ^ (z >> 27)) * 0x94D049BB133111EB
+		z ^= z >> 31
+		n := prefix + strconv.FormatUint(z, 36)
+		v := h(n)
+		if m, ok := seen[v]; ok {
+			return m, n
+		}
+		seen[v] = n
+	}
+	return "", ""
+}
+
+type vfC14NamePair struct{ family, a, b string }
+
+// vfC14SimilarNames: pairs of DIFFERENT method names that a binding weaker than
+// the full name would equate: equal short digests (found by search), letter
+// case, prefix relation, long common prefix / suffix.
+func vfC14SimilarNames() []vfC14NamePair {
+	long := strings.Repeat("scan_partition_", 8) // 120 bytes
+	ps := []vfC14NamePair{
+		{"case", "ScanPart", "scanpart"},
+		{"prefix", "scan", "scan2"},
+		{"long-common-prefix", long + "a", long + "b"},
+		{"long-common-suffix", "a" + long, "b" + long},
+		{"same-length-one-byte", "scan_part_10", "scan_part_01"},
+	}
+	add := func(family string, h func(string) uint32) {
+		a, b := vfC14Collide(h, "scan_part_")
+		if a == "" {
+			venum.EngineError("C14 harness: no %s collision found in the search bound", family)
+			return
+		}
+		ps = append(ps, vfC14NamePair{family, a, b})
+	}
+	add("digest-fnv1a32", func(n string) uint32 { f := fnv.New32a(); f.Write([]byte(n)); return f.Sum32() })
+	add("digest-fnv1-32", func(n string) uint32 { f := fnv.New32(); f.Write([]byte(n)); return f.Sum32() })
+	add("digest-crc32-ieee", func(n string) uint32 { return crc32.ChecksumIEEE([]byte(n)) })
+	casta := crc32.MakeTable(crc32.Castagnoli)
+	add("digest-crc32-castagnoli", func(n string) uint32 { return crc32.Checksum([]byte(n), casta) })
+	add("digest-adler32", func(n string) uint32 { return adler32.Checksum([]byte(n)) })
+	add("digest-fnv1a64-folded", func(n string) uint32 { f := fnv.New64a(); f.Write([]byte(n)); v := f.Sum64(); return uint32(v) ^ uint32(v>>32) })
+	add("digest-fnv1a64-low32", func(n string) uint32 { f := fnv.New64a(); f.Write([]byte(n)); return uint32(f.Sum64()) })
+	return ps
+}
+
+func vfC14ShortName(n string) string {
+	if len(n) > 40 {
+		return fmt.Sprintf("%s…%s(%d bytes)", n[:16], n[len(n)-8:], len(n))
+	}
+	return n
 }
 
 // vfC14UserTurns counts Produce/Exchange/OnCancel invocations (not rehydrate).
@@ -293,6 +358,128 @@ func TestVerif_C14(t *testing.T) {
 		}
 		if !flagged && (rec.Code < 400 || rec.Code > 499) {
 			x.Failf(cls+fmt.Sprintf(":status-%d", rec.Code), "%s tokens presented to /%s/exchange: status %d is not a client error (resp %s)", src.name, dst.name, rec.Code, summary)
+		}
+	})
+
+	// ---- similar method names ---------------------------------------------------------
+	//
+	// Two methods of the SAME kind (so no state-kind check can separate them)
+	// whose names are different but alike; tokens of one are presented to the
+	// other's route in both directions.
+	pairs := vfC14SimilarNames()
+	for _, p := range pairs {
+		venum.SetInfo("similar-names:"+p.family, fmt.Sprintf("%d/%d bytes", len(p.a), len(p.b)))
+	}
+	venum.Explore(t, venum.Cfg{Name: "similar-method-names", Shardable: true}, func(x *venum.X) {
+		np := pairs[x.Choose(len(pairs), "name-pair")]
+		rev := x.Bool("reverse-direction")
+		kind := x.Pick("kind", "producer", "exchange")
+		turns := x.Choose(2, "own-turns-before")
+		cancel := x.Bool("cancel")
+		rehydrate := x.Bool("recording-rehydrate-callback")
+		cacheOff := x.Bool("call-cache-off")
+		control := x.Bool("control-own-route")
+
+		names := []string{np.a, np.b}
+		cols := []string{"v", "w"}
+		ins := []string{"x", "y"}
+		vfResetEvents()
+		s := NewServer()
+		s.SetServerID("vf-c14")
+		for i := range names {
+			i := i
+			out := vfI64Schema(cols[i])
+			if kind == "producer" {
+				Producer(s, names[i], out, func(ctx context.Context, cc *CallContext, p VfXParams) (*StreamResult, error) {
+					return &StreamResult{OutputSchema: out, State: &VfC14Prod{Owner: names[i], Col: cols[i]}}, nil
+				})
+			} else {
+				in := vfI64Schema(ins[i])
+				Exchange(s, names[i], out, in, func(ctx context.Context, cc *CallContext, p VfXParams) (*StreamResult, error) {
+					return &StreamResult{OutputSchema: out, InputSchema: in, State: &VfC14Exch{Owner: names[i], Col: cols[i]}}, nil
+				})
+			}
+		}
+		h, err := NewHttpServerWithKey(s, []byte("c14-fixed-token-key-0123456789ab"))
+		if err != nil {
+			panic(err)
+		}
+		h.SetProducerBatchLimit(1)
+		if cacheOff {
+			h.SetCallStateCacheEntries(0)
+		}
+		if rehydrate {
+			h.SetRehydrateFunc(func(state interface{}, method string) error {
+				vfEvents = append(vfEvents, VfEvent{What: "rehydrate", Method: method})
+				return nil
+			})
+		}
+		si, di := 0, 1
+		if rev {
+			si, di = 1, 0
+		}
+		if control {
+			di = si
+		}
+		input := func(i int) arrow.RecordBatch {
+			if kind == "producer" {
+				return vfEmpty(vfEmptySchema)
+			}
+			return vfI64Batch(ins[i], 5)
+		}
+		rec, pan := vfArrowPost(h, "/"+names[si]+"/init", vfXReq(names[si], 1))
+		if pan != nil || rec.Code != 200 {
+			venum.EngineError("C14 harness: init of %q failed: status=%d panic=%v", names[si], rec.Code, pan)
+			return
+		}
+		st, _, _ := vfParseStreams(rec.Body.Bytes())
+		cursor, call := vfTokens(st)
+		if cursor == "" || call == "" {
+			venum.EngineError("C14 harness: init of %q minted no tokens", names[si])
+			return
+		}
+		for k := 0; k < turns; k++ {
+			rec, pan = vfArrowPost(h, "/"+names[si]+"/exchange", vfExchangeBody(input(si), cursor, call))
+			st, _, _ = vfParseStreams(rec.Body.Bytes())
+			c2, _ := vfTokens(st)
+			if pan != nil || rec.Code != 200 || c2 == "" {
+				venum.EngineError("C14 harness: own turn of %q failed: status=%d panic=%v", names[si], rec.Code, pan)
+				return
+			}
+			cursor = c2
+		}
+		vfResetEvents()
+		var kv []string
+		if cancel {
+			kv = append(kv, MetaCancel, "true")
+		}
+		rec, pan = vfArrowPost(h, "/"+names[di]+"/exchange", vfExchangeBody(input(di), cursor, call, kv...))
+		var what []string
+		for _, e := range vfEvents {
+			what = append(what, e.What)
+		}
+		summary := ""
+		if pan == nil {
+			summary = vfC14Summary(rec.Body.Bytes())
+		}
+		x.Outcome("control=%v status=%d panic=%v ran=%v", control, rec.Code, pan != nil, what)
+		x.Note("family %s: tokens of %q (%d own turns) presented to /%s/exchange, kind=%s cancel=%v rehydrate=%v cache-off=%v -> status=%d panic=%v ran=%v resp=%s",
+			np.family, vfC14ShortName(names[si]), turns, vfC14ShortName(names[di]), kind, cancel, rehydrate, cacheOff, rec.Code, pan, what, summary)
+		if control {
+			if pan != nil || rec.Code != 200 || vfC14UserTurns() != 1 {
+				venum.EngineError("C14 harness: own continuation of %q refused: status=%d ran=%v", names[si], rec.Code, what)
+			}
+			return
+		}
+		cls := "C14:similar-names:" + np.family + ":" + kind
+		switch {
+		case pan != nil:
+			x.Failf(cls+":panic-escapes-ServeHTTP", "tokens of %q presented to /%s/exchange: panic escaped ServeHTTP: %v", vfC14ShortName(names[si]), vfC14ShortName(names[di]), pan)
+		case len(vfEvents) > 0:
+			x.Failf(cls+":foreign-"+vfEvents[0].What+"-ran", "tokens of %q presented to /%s/exchange: %v ran under method %q (status %d, resp %s)",
+				vfC14ShortName(names[si]), vfC14ShortName(names[di]), what, vfC14ShortName(vfEvents[0].Method), rec.Code, summary)
+		case rec.Code < 400 || rec.Code > 499:
+			x.Failf(cls+fmt.Sprintf(":status-%d", rec.Code), "tokens of %q presented to /%s/exchange: status %d is not a client error", vfC14ShortName(names[si]), vfC14ShortName(names[di]), rec.Code)
 		}
 	})
 }
